@@ -21,7 +21,7 @@ Local Open Scope Z_scope.
 Inductive cerr :=
   | EmptyImage | ImageTooBig | WidthOverflow | BadPrecision | ComponentCount
   | BadSampling | BadScanScript | BadProgScript | MissingData | BadMcuSize
-  | FractSample | ConversionNotImpl | ArithNotImpl | BadDctCoef.
+  | FractSample | ConversionNotImpl | ArithNotImpl | BadDctCoef | MissingCode.
 
 (* ------------------------------------------- arrays of the C code and the trace *)
 Inductive arr :=
@@ -272,6 +272,8 @@ Definition per_scan_setup (width height : Z) (lossless : bool) (u : setup) (ncur
   let '(blocks, mem, mpr, rows, lasts) := r in
   let ri := if restart_in_rows >? 0 then Z.min (restart_in_rows * mpr) g_RESTART_MAX
             else restart_interval in
+  (* "if (cinfo->restart_interval > 65535) cinfo->restart_interval = 65535;" *)
+  let ri := if (g_RESTART_CLAMP_DIRECT =? 1) && (ri >? g_RESTART_MAX) then g_RESTART_MAX else ri in
   ret {| i_blocks_in_MCU := blocks; i_membership := mem; i_MCUs_per_row := mpr; i_MCU_rows := rows;
          i_restart_interval := ri; i_last := lasts |}.
 
@@ -433,48 +435,67 @@ Definition put_bits (st : bitstate) (code size : Z) : bitstate :=
     {| b_put := Z.lor (Z.shiftl (b_put st) size mod W64) code mod W64; b_free := fb; b_out := b_out st |}.
 
 (* PUT_CODE(code, size) with the current temp / nbits *)
-Definition put_code (st : bitstate) (temp nbits code size : Z) : bitstate :=
-  let t := Z.lor (Z.land temp (2 ^ nbits - 1)) (Z.shiftl code nbits) in
-  put_bits st t (nbits + size).
+Definition put_code (st : bitstate) (temp nbits code size : Z) : cerr + bitstate :=
+  if (g_MISSING_CODE_CHECK =? 1) && (size =? 0) then inl MissingCode
+  else
+    let t := Z.lor (Z.land temp (2 ^ nbits - 1)) (Z.shiftl code nbits) in
+    inr (put_bits st t (nbits + size)).
 
 (* "nbits = temp >> 31; temp += nbits; nbits ^= temp;" : (temp', |temp|) *)
 Definition abs_trick (temp : Z) : Z * Z := if temp <? 0 then (temp - 1, - temp) else (temp, temp).
 
 (* one kloop(): r in units of 16 as in the C *)
-Definition ac_step (prec : Z) (actbl : ctbl) (v : Z) (acc : option (bitstate * Z)) : option (bitstate * Z) :=
+Definition ac_step (prec : Z) (actbl : ctbl) (v : Z) (acc : cerr + (bitstate * Z)) : cerr + (bitstate * Z) :=
   match acc with
-  | None => None
-  | Some (st, r) =>
-      if v =? 0 then Some (st, r + 16)
+  | inl e => inl e
+  | inr (st, r) =>
+      if v =? 0 then inr (st, r + 16)
       else
         let '(temp, mag) := abs_trick v in
         let nb := nbits mag in
-        if nb >? prec + g_MAX_COEF_BITS_ADD then None
+        if nb >? prec + g_MAX_COEF_BITS_ADD then inl BadDctCoef
         else
           (* "while (r >= 16 * 16) { r -= 16 * 16; PUT_BITS(ehufco[0xf0], ehufsi[0xf0]) }" *)
           let nz := r / 256 in
           let st1 := fold_left (fun s _ => put_bits s (nthZ (ehufco actbl) 240) (nthZ (ehufsi actbl) 240))
                                (seq 0 (Z.to_nat nz)) st in
           let r1 := r - nz * 256 + nb in
-          Some (put_code st1 temp nb (nthZ (ehufco actbl) (Z.to_nat r1)) (nthZ (ehufsi actbl) (Z.to_nat r1)), 0)
+          match put_code st1 temp nb (nthZ (ehufco actbl) (Z.to_nat r1)) (nthZ (ehufsi actbl) (Z.to_nat r1)) with
+          | inl e => inl e
+          | inr st2 => inr (st2, 0)
+          end
   end.
 
 (* coefs: the 64 coefficients in the order encode_one_block visits them (block[0], kloop order) *)
 Definition encode_one_block (prec : Z) (dctbl actbl : ctbl) (st : bitstate) (last_dc : Z) (coefs : list Z)
-  : option bitstate :=
+  : cerr + bitstate :=
   match coefs with
-  | [] => None
+  | [] => inl BadDctCoef
   | dc :: acs =>
       let '(temp, mag) := abs_trick (dc - last_dc) in
       let nb := nbits mag in
-      if nb >? prec + g_MAX_COEF_BITS_ADD + g_DC_EXTRA_BITS then None
+      if nb >? prec + g_MAX_COEF_BITS_ADD + g_DC_EXTRA_BITS then inl BadDctCoef
       else
-        let st1 := put_code st temp nb (nthZ (ehufco dctbl) (Z.to_nat nb)) (nthZ (ehufsi dctbl) (Z.to_nat nb)) in
-        match fold_left (fun acc v => ac_step prec actbl v acc) acs (Some (st1, 0)) with
-        | None => None
-        | Some (st2, r) =>
-            Some (if r >? 0 then put_bits st2 (nthZ (ehufco actbl) 0) (nthZ (ehufsi actbl) 0) else st2)
+        match put_code st temp nb (nthZ (ehufco dctbl) (Z.to_nat nb)) (nthZ (ehufsi dctbl) (Z.to_nat nb)) with
+        | inl e => inl e
+        | inr st1 =>
+            match fold_left (fun acc v => ac_step prec actbl v acc) acs (inr (st1, 0)) with
+            | inl e => inl e
+            | inr (st2, r) =>
+                inr (if r >? 0 then put_bits st2 (nthZ (ehufco actbl) 0) (nthZ (ehufsi actbl) 0) else st2)
+            end
         end
+  end.
+
+(* the pre-check of encode_one_block_simd: same verdict as the range tests above (all coefficients
+   are tested before anything is emitted) *)
+Definition simd_range_ok (prec last_dc : Z) (coefs : list Z) : bool :=
+  match coefs with
+  | [] => false
+  | dc :: acs =>
+      let max_coef := 2 ^ (prec + g_MAX_COEF_BITS_ADD) - 1 in
+      (Z.abs (dc - last_dc) <=? 2 * max_coef + 1) &&
+      (fold_left (fun a v => Z.lor a (Z.abs v)) acs 0 <=? max_coef)
   end.
 
 (* flush_bits: whole bytes, then the partial byte filled with ones; returns the bytes in order *)
